@@ -767,9 +767,16 @@ def _verdict(fn):
 
 
 @register("arrange")
-def h_arrange(spec, target, doc_path, handle):
+def h_arrange(spec, target, doc_path, handle, base_spec=None):
     """Construct the target object of a (possibly invalid) arrangement through
-    the constructor, dict validation, JSON validation and AOEF loading."""
+    the constructor, dict validation, JSON validation and AOEF loading.
+
+    With ``base_spec`` (the valid world the arrangement was derived from, same
+    identifiers) the base world is built and validated first in this process,
+    and the constructor path reuses its *live* clip annotation / prediction
+    objects, brought to the new content by editing their lists in place: the
+    arrangement is then reached through a history, not from scratch.
+    """
     import json  # noqa: PLC0415
 
     from soundevent import data, io as sio  # noqa: PLC0415
@@ -842,7 +849,29 @@ def h_arrange(spec, target, doc_path, handle):
         kwargs = world.match_kwargs(spec["matches"][i])
     elif cls_name == "ClipEvaluation":
         cls = data.ClipEvaluation
-        kwargs = world.clip_evaluation_kwargs(spec["clip_evaluations"][i])
+        e = spec["clip_evaluations"][i]
+        kwargs = world.clip_evaluation_kwargs(e)
+        if base_spec is not None:
+            base_world = World(base_spec)
+            for key, pool, items in (
+                ("annotations", "clip_annotations", "se_annotations"),
+                ("predictions", "clip_predictions", "se_predictions"),
+            ):
+                idx = e[key]
+                if (
+                    idx < len(base_spec[pool])
+                    and base_spec[pool][idx]["uuid"] == spec[pool][idx]["uuid"]
+                ):
+                    live = getattr(base_world, pool)[idx]
+                    new = [
+                        getattr(base_world, items)[j]
+                        for j in spec[pool][idx].get("sound_events", [])
+                    ]
+                    try:
+                        live.sound_events[:] = new
+                    except TypeError:
+                        live.sound_events = new
+                    kwargs[key] = live
     elif cls_name == "AnnotationProject":
         cls = data.AnnotationProject
         kwargs = world.root_kwargs("annotation_project")
@@ -988,3 +1017,16 @@ def a_spectrogram(source, window_size, hop_size, handle):
         return _outcome_of(exc)
     ARRAYS[handle] = arr
     return _array_payload(arr, with_data=False)
+
+
+@register("a_scribble")
+def a_scribble(handle):
+    """The caller modifies, in place, an array an earlier call returned."""
+    arr = ARRAYS.get(handle)
+    if arr is None:
+        return {"outcome": "raised", "exc": "KeyError", "msg": "no such array"}
+    try:
+        arr.values[...] = arr.values * 0.5 + 0.25
+    except Exception as exc:
+        return _outcome_of(exc)
+    return {"outcome": "ack"}
